@@ -35,7 +35,7 @@ def validate(module: str, cfg: str, trace_file: str, workers: int = 8, timeout: 
     except tlc.MachineryError:
         raise
     out: Dict[str, Any] = {"ok": res.ok, "states": res.distinct_states, "transitions": res.states_generated,
-                           "rejected": None}
+                           "rejected": None, "vectors": res.vectors}
     if res.invariant_violated:
         txt = "\n".join(res.error_trace)
         # last state of the counterexample carries tid and l
